@@ -628,8 +628,12 @@ class Interp:
             return 0.0
         if name == 'np.float64':
             return float(args[0])
-        if name == 'np.ones':
+        if name in ('np.ones', 'np.ones_like'):
             return 1.0
+        if name == 'np.zeros_like':
+            return 0.0
+        if name in ('np.full', 'np.full_like') and len(args) >= 2 and isinstance(args[1], NUM):
+            return float(args[1])          # np.full(shape, v): the scalar v on the 1x1 model
         if name in ('np.array', 'np.asarray'):
             v = args[0]
             if isinstance(v, (list, tuple)) and len(v) == 1:
